@@ -23,6 +23,8 @@ def one(job):
     if r.returncode: return name, prop, "worktree failed", 0, ""
     try:
         ap = sh("git apply %s/patch.diff" % d, cwd=wt)
+        if ap.returncode:
+            ap = sh("git apply -3 %s/patch.diff && git reset -q" % d, cwd=wt)
         if ap.returncode: return name, prop, "patch does not apply", 0, ap.stderr[-300:]
         out = []
         res = []
@@ -53,7 +55,7 @@ def main():
         b = os.path.join(VERIF, base)
         if os.path.isdir(b):
             for n in sorted(os.listdir(b)):
-                if os.path.exists(os.path.join(b, n, "patch.diff")) and (not args or n in args or any(n.startswith(a) for a in args)):
+                if os.path.exists(os.path.join(b, n, "patch.diff")) and (not args or n in args or any(n.startswith(a) or ("-" + a + "-") in n for a in args)):
                     dirs.append(os.path.join(b, n))
     results = {}
     rp = os.path.join(VERIF, "seeded", "RESULTS.json")
